@@ -236,7 +236,8 @@ Lemma scrub_ok k : script_ok k ->
   (forall q, dom_l q -> no_panics_l q = true -> okl true (pl_scrub k q)).
 Proof.
   intros Hk. apply pipe_ind; simpl; intros; auto.
-  - destruct s; simpl in *; auto; (split; [apply script_ok_cut; assumption|discriminate]).
+  - destruct s; simpl in *; auto;
+      (split; [first [apply script_ok_cut; assumption|exact Hk]|discriminate]).
   - destruct (cb_ok_split _ _ H1). split; [apply scrub_fl_ok; assumption|auto].
   - induction H as [|x t Hx Ht IH]; simpl in *; [exact I|]. destruct H0.
     apply andb_true_iff in H1. destruct H1. split; auto.
